@@ -199,13 +199,26 @@ def run(ctx):
               f"the occupancy resolution is `{why}`, which is not a common divisor of all box boundaries (min/max of the "
               f"box extents is recognised as NOT one): with mixed box shapes (16 and 24) idx // rez rounds boundaries and "
               f"the region covered by the next level is over-estimated", where=loc(ba, rez) if rez is not None else None)
-    b = {norm(n.targets[0]): norm(n.value) for n in walk_no_nested(ba.node) if isinstance(n, ast.Assign)}
-    ok = b.get("box_array_shape") == "self.grid_sizes[lv] // box_rez" and b.get("bidx_lo") == "idx[0] // box_rez" and \
-        b.get("bidx_hi") == "idx[1] // box_rez"
-    st = [norm(n.targets[0]) for n in walk_no_nested(ba.node) if isinstance(n, ast.Assign) and norm(n.value) == "i"]
-    ctx.check(ok and st == ["box_array[bidx_lo[0]:bidx_hi[0] + 1, bidx_lo[1]:bidx_hi[1] + 1, bidx_lo[2]:bidx_hi[2] + 1]"],
+    # naming / hoisting independent: every local but the resolution and the array itself is substituted
+    keep = tuple(ba.params) + ("box_rez", "box_array")
+    marks = []
+    for n in walk_no_nested(ba.node):
+        if isinstance(n, ast.For) and isinstance(n.iter, ast.Call) and norm(n.iter.func) == "enumerate" and \
+                isinstance(n.target, ast.Tuple) and len(n.target.elts) == 2:
+            bid, ix = norm(n.target.elts[0]), norm(n.target.elts[1])
+            for m in ast.walk(n):
+                if isinstance(m, ast.Assign) and isinstance(m.targets[0], ast.Subscript) and \
+                        norm(m.targets[0].value) == "box_array":
+                    marks.append((rules.deep(m.targets[0], env, keep).replace(ix, "idx"),
+                                  "id" if norm(m.value) == bid else norm(m.value), norm(n.iter)))
+    lo, hi = "(idx[0] // box_rez)", "(idx[1] // box_rez)"
+    want = (f"box_array[{lo}[0]:{hi}[0] + 1, {lo}[1]:{hi}[1] + 1, {lo}[2]:{hi}[2] + 1]", "id",
+            "enumerate(self.cells[lv]['indexes'])")
+    alloc = rules.deep(fill.value, env, keep) if fill is not None else ""
+    ctx.check(marks == [want] and "self.grid_sizes[lv] // box_rez" in alloc,
               f"{P}.OCCUPANCY", ba.site, "each box marks the inclusive occupancy range idx_lo//rez .. idx_hi//rez on "
-                                         "every axis with its own id", f"occupancy marking is {st}")
+                                         "every axis with its own id, in an array of grid_size // rez cells",
+              f"occupancy marking is {marks} in an array allocated as {alloc}")
     formulas.rule_level_range(ctx, f"{P}.LEVEL-RANGE", ba)
     # CLI
     cli = prog.func("amr_kitchen/pestle/cli.py", "main", P)
